@@ -1185,8 +1185,9 @@ class EtreeElementNode(ElementNode):
             yield UntypedAtomic(''.join(etree_iter_strings(self.value)))
         elif self.xsd_type.is_element_only():
             return
-        elif self.value.get(XSI_NIL) and getattr(self.xsd_type.parent, 'nillable', None):
-            return
+        elif self.nilled and (getattr(self.xsd_element, 'nillable', None) or
+                              getattr(self.xsd_type.parent, 'nillable', None)):
+            return  # the typed value of a nilled element is the empty sequence
         elif self.value.text is not None:
             yield from get_atomic_sequence(self.xsd_type, self.value.text, self.nsmap)
         elif self.value.get(XSI_NIL) in ('1', 'true'):
